@@ -229,9 +229,28 @@ m("c02_sc_vm", "C02", r"C02\.SC:vm:JumpIfTrueOrPop", "VM arm of JumpIfTrueOrPop 
                     if peeked.is_truthy() {""", """                Instruction::JumpIfTrueOrPop(target_ip) => {
                     let (peeked, _) = state.stack.peek();
                     if !peeked.is_truthy() {""")
+# ---------------------------------------------------------------- C19
+m("c19_cast_trunc", "C19", r"C19\.(CAST|TABLE)", "u64 stored as I64 through a sign-changing cast",
+  "tera/src/value/ser.rs", """    fn serialize_u64(self, v: u64) -> Result<Self::Ok, Self::Error> {
+        Ok(ValueInner::U64(v).into())""", """    fn serialize_u64(self, v: u64) -> Result<Self::Ok, Self::Error> {
+        Ok(ValueInner::I64(v as i64).into())""")
+m("c19_key_float", "C19", r"C19\.KEYREFUSE:serialize_f64", "float map keys silently turned into strings",
+  "tera/src/value/ser.rs", "__SPECIAL_KEY_F64__", "")
+m("c19_de_width", "C19", r"C19\.TABLE:de:I128", "i128 handed to visit_i64",
+  "tera/src/value/de.rs", "ValueInner::I128(v) => visitor.visit_i128(*v),", "ValueInner::I128(v) => visitor.visit_i64(*v as i64),")
+m("c19_sort_removed", "C19", r"C19\.SORT:format_map", "map printing no longer sorts",
+  "tera/src/value/mod.rs", """    if cfg!(not(feature = "preserve_order")) {
+        key_val.sort_by_key(|elem| elem.0);
+    }""", """    if cfg!(feature = "preserve_order") {
+        key_val.sort_by_key(|elem| elem.0);
+    }""")
 
 
 def apply(src, old, new, count, name):
+    if old == "__SPECIAL_KEY_F64__":
+        i = src.index("    fn serialize_f64(self, _v: f64) -> Result<Self::Ok, Self::Error> {\n        Err(SerializationFailed(")
+        j = src.index("    }\n", i)
+        return src[:i] + "    fn serialize_f64(self, v: f64) -> Result<Self::Ok, Self::Error> {\n        Ok(Key::String(Arc::from(v.to_string())))\n" + src[j:]
     if old == "__SPECIAL_TERA_MUTEX__":
         a = "    /// Fallback prefixes to try when a template is not found by exact name.\n    fallback_prefixes: Vec<Cow<'static, str>>,\n}"
         assert src.count(a) == 1
